@@ -72,7 +72,7 @@ Fixpoint rename_loop (fuel : nat) (c : cache) (now : Z) (k : chk) : option (resu
       end
   end.
 
-Definition rename_fuel (c : cache) (k : chk) : nat := S (length (entries_with_name c (s_type (ck_svc k)))).
+Definition rename_fuel (c : cache) (k : chk) : nat := S (S (length (entries_with_name c (s_type (ck_svc k))))).
 
 (* the body of `while i < _REGISTER_BROADCASTS` from the point where the coroutine (re)starts with `now` fresh,
    up to the next await / raise / return.  The cache cannot change inside a turn. *)
